@@ -47,10 +47,10 @@ func runC02(p *eng.Prog, r *eng.Report, tier string) {
 	errDiscipline(c, "C02.9", tlsFns, acceptC04, true)
 	c02RawConn(c)
 	bitProducers(c, "C02.8", 1, "Secure", map[string]string{
-		"xmpp.StartTLS$3":            "",
-		"xmpp.negotiateSession":      "commaok(*.conn.(*crypto/tls.Conn))",
-		"websocket.NewSession":       "eq(*.Scheme,\"wss\")",
-		"websocket.ReceiveSession":   "eq(*.Scheme,\"wss\")",
+		"xmpp.StartTLS$3":          "",
+		"xmpp.negotiateSession":    "commaok(*.conn.(*crypto/tls.Conn))",
+		"websocket.NewSession":     "eq(*.Scheme,\"wss\")",
+		"websocket.ReceiveSession": "eq(*.Scheme,\"wss\")",
 	}, 4)
 }
 
@@ -210,10 +210,10 @@ func constMask(f *eng.Fn, e ast.Expr) int64 {
 // C02.3 prerequisite masks of the built-in features.
 func c02Masks(c *cx) {
 	want := map[string][2]int64{ // function -> {Necessary must include, Prohibited must include}
-		"xmpp.StartTLS":  {0, 1},
-		"xmpp.newSASL":   {1, 2},
-		"xmpp.bind":      {2, 0},
-		"s2s.Bidi":       {1, 0},
+		"xmpp.StartTLS": {0, 1},
+		"xmpp.newSASL":  {1, 2},
+		"xmpp.bind":     {2, 0},
+		"s2s.Bidi":      {1, 0},
 	}
 	seen := map[string]bool{}
 	for _, l := range sfLiterals(c) {
@@ -406,20 +406,20 @@ func c02StartTLS(c *cx) {
 // C02.7 who touches the raw connection.
 func c02RawConn(c *cx) {
 	allowed := map[string]string{
-		"xmpp.negotiator$1|internal/stream.Send":         "stream header",
-		"xmpp.negotiator$1|xmpp.newTeeConn":              "tee wrapper",
-		"xmpp.StartTLS$3|fmt.Fprint":                     "fixed <starttls/>/<proceed/> strings (C02.6)",
-		"xmpp.StartTLS$3|crypto/tls.Client":              "TLS layer",
-		"xmpp.StartTLS$3|crypto/tls.Server":              "TLS layer",
-		"xmpp.(*Session).closeSession|internal/stream.Close": "closing tag",
-		"component.Negotiator$1|fmt.Fprintf":             "component header",
-		"xmpp.negotiateSession|encoding/xml.NewDecoder":  "session decoder",
-		"xmpp.negotiateSession|encoding/xml.NewEncoder":  "session encoder",
-		"xmpp.negotiateSession|xmpp.newConn":             "connection wrapper",
+		"xmpp.negotiator$1|internal/stream.Send":                    "stream header",
+		"xmpp.negotiator$1|xmpp.newTeeConn":                         "tee wrapper",
+		"xmpp.StartTLS$3|fmt.Fprint":                                "fixed <starttls/>/<proceed/> strings (C02.6)",
+		"xmpp.StartTLS$3|crypto/tls.Client":                         "TLS layer",
+		"xmpp.StartTLS$3|crypto/tls.Server":                         "TLS layer",
+		"xmpp.(*Session).closeSession|internal/stream.Close":        "closing tag",
+		"component.Negotiator$1|fmt.Fprintf":                        "component header",
+		"xmpp.negotiateSession|encoding/xml.NewDecoder":             "session decoder",
+		"xmpp.negotiateSession|encoding/xml.NewEncoder":             "session encoder",
+		"xmpp.negotiateSession|xmpp.newConn":                        "connection wrapper",
 		"xmpp.(*Session).SetCloseDeadline|net.Conn.SetReadDeadline": "deadline only",
-		"xmpp.(*Session).Encode|xmpp.setWriteDeadline":   "deadline only",
-		"xmpp.(*Session).EncodeElement|xmpp.setWriteDeadline": "deadline only",
-		"xmpp.send|xmpp.setWriteDeadline":                "deadline only",
+		"xmpp.(*Session).Encode|xmpp.setWriteDeadline":              "deadline only",
+		"xmpp.(*Session).EncodeElement|xmpp.setWriteDeadline":       "deadline only",
+		"xmpp.send|xmpp.setWriteDeadline":                           "deadline only",
 	}
 	n := 0
 	for _, f := range c.allFns() {
